@@ -34,7 +34,9 @@ class Prop:
     DIGEST_EVERY = 20
     RULE = ("seeded random histories (3-30 graph ops: link reassignment incl. None/fresh/shared "
             "nodes and cycles, every list/dict/set mutator with duplicates, nested-list grid, "
-            "equal-list reassignment, lazy default reads, add_trait, gc, drop of pool nodes, "
+            "equal-list reassignment, lazy default reads, add_trait (also of a trait whose "
+            "constant default is a pool node, read for the first time later), gc, drop of pool "
+            "nodes, "
             "simulated thread switches and deferred ui delivery) on a pool of 2-5 nodes with 1-3 "
             "handlers observing generated expressions (series with '.'/':', parallel branches, "
             "items and typed *_items, +metadata, '*', nested containers, optional traits; text "
@@ -42,7 +44,9 @@ class Prop:
             "non-trivial = at least one graph op changed the matched set and at least one probe "
             "was expected to call and one expected silent; distinct = distinct abstract traces "
             "(expression shape, op kinds, expected-call pattern per op)")
-    ASSUMPTIONS = ["links are typed (Instance/List(Instance)...) and containers never hold None",
+    ASSUMPTIONS = ["assigning a never-read trait the very object that is its constant default is "
+                   "excluded (known finding K3)",
+                   "links are typed (Instance/List(Instance)...) and containers never hold None",
                    "histories in which one observable is matched at two depths of one expression "
                    "branch (level aliasing, known finding K1) are excluded by a model-side guard",
                    "conflicting re-entrant mutation from handlers is not generated"]
@@ -71,6 +75,8 @@ class Prop:
         k1_witness = False
         er = stream(seed, "env")
         nested_rate = c.choice([0.0, 0.0, 0.15, 0.4])
+        # value objects: links can be re-assigned an equal but distinct node
+        node_cls = c.choice([None, None, None, "EqNode"])
         ops = []
         for _ in range(nops + pre):
             x = r.random()
@@ -80,6 +86,10 @@ class Prop:
                 ops.append({"k": "drop", "o": r.randrange(npool + 2)})
             elif allow_opt and x < 0.12:
                 ops.append(r.choice([{"k": "add_trait", "o": r.randrange(npool)},
+                                     # (a trait whose constant default is a node)
+                                     {"k": "add_trait", "o": r.randrange(npool),
+                                      "dflt": G.gen_ref(r, npool, 0.3, 0.0)},
+                                     {"k": "read_extra", "o": r.randrange(npool)},
                                      {"k": "set_extra", "o": r.randrange(npool),
                                       "v": G.gen_ref(r, npool, 0.2, 0.1)}]))
             elif deferred and x < 0.18:
@@ -87,6 +97,11 @@ class Prop:
                                      {"k": "deliver", "n": r.choice([1, 2, 99]), "i": r.randrange(6)}]))
             else:
                 ops.append(G.gen_graph_op(r, npool))
+                while node_cls == "EqNode" and ops[-1]["k"] in ("set", "set_group"):
+                    # which of two equal members a set operation keeps is not
+                    # specified (not even for the built-in): value objects stay
+                    # out of sets
+                    ops[-1] = G.gen_graph_op(r, npool)
                 if er.random() < nested_rate:
                     # non-conflicting re-entrancy: from inside a handler, assign a leaf of a
                     # node whose matched status the in-flight op does not change
@@ -95,6 +110,8 @@ class Prop:
                                        "name": er.choice(["value", "label"])}]
         return {"prop": ID, "seed": seed,
                 "config": {"npool": npool, "handlers": handlers, "pre": pre,
+                           # value objects: links re-assigned an equal but distinct node
+                           "node_cls": node_cls,
                            "allow_k1": k1_witness, "gc_mode": gc_mode},
                 "ops": ops}
 
@@ -103,7 +120,7 @@ class Prop:
         from traits.observation import api as oapi
         cfg = trace["config"]
         self._pushed = False
-        world = G.World(env, cfg["npool"])
+        world = G.World(env, cfg["npool"], classes=cfg.get("node_cls") or None)
         self._world = world
         sched = Sched(env)
         self._sched = sched
@@ -128,6 +145,7 @@ class Prop:
         pending_expect = {}     # (origin, hid) -> expectation awaiting a deferred delivery
         stats = {"expected_call": 0, "expected_silent": 0, "graph_changes": 0}
         allow_k1 = cfg.get("allow_k1", False)
+        world.allow_k3 = cfg.get("allow_k3", False)
         ops = trace["ops"]
         for i, op in enumerate(ops):
             env.begin_op(i, op)
